@@ -7,6 +7,7 @@ import (
 	"slices"
 	"sort"
 	"strconv"
+	"strings"
 	"ti/base"
 	"ti/builtin"
 	"ti/eval"
@@ -21,9 +22,19 @@ const (
 	separator              = ":::"
 )
 
+// oneLine keeps a record on a single output line: the plugin protocol is line based, and
+// names or literals taken from malformed source may contain line breaks.
+func oneLine(s string) string {
+	if !strings.ContainsAny(s, "\n\r") {
+		return s
+	}
+
+	return strings.NewReplacer("\r\n", "\\n", "\n", "\\n", "\r", "\\r").Replace(s)
+}
+
 func PrintDefineInfosForPlugin(infos []string) {
 	for _, info := range infos {
-		fmt.Println(info)
+		fmt.Println(oneLine(info))
 	}
 }
 
@@ -394,7 +405,7 @@ func readLineFromFile(fileName string, row int) string {
 
 func PrintAllErrorsForPlugin(p parser.Parser) {
 	for _, err := range p.Errors {
-		fmt.Println(err)
+		fmt.Println(oneLine(err.Error()))
 	}
 }
 
@@ -473,7 +484,7 @@ func printAllClasses() {
 }
 
 func printDefinitionTarget(frame, class string) {
-	fmt.Println(prefixDefinitionTarget + frame + separator + class)
+	fmt.Println(oneLine(prefixDefinitionTarget + frame + separator + class))
 }
 
 func printMatchingSignatures(p parser.Parser) {
@@ -500,7 +511,7 @@ func printSignature(sig base.Sig) {
 		sig.FileName + separator +
 		strconv.Itoa(sig.Row)
 
-	fmt.Println(line)
+	fmt.Println(oneLine(line))
 }
 
 func printInheritance(child, parent base.ClassNode) {
@@ -510,12 +521,12 @@ func printInheritance(child, parent base.ClassNode) {
 		parent.Frame + separator +
 		parent.Class
 
-	fmt.Println(line)
+	fmt.Println(oneLine(line))
 }
 
 func printSuggestion(contents, detail string, document string) {
 	fmt.Println(
-		prefixSignature + contents + separator + detail + separator + document,
+		oneLine(prefixSignature + contents + separator + detail + separator + document),
 	)
 }
 
